@@ -146,7 +146,7 @@ PG_TRUSTED = [
     "the wrapper is driven through its public API with the pgx pool interface (WithConnection) exactly as its own tests drive pgxmock; storage keys are C10/C11's",
 ]
 PROPS['C13'] = dict(
-    prop_modules=['Vise.Props.C13'], lean_targets=['Vise.Props.C13'], suites=['pg'],
+    prop_modules=['Vise.Props.C13', 'Vise.Props.C13Log'], lean_targets=['Vise.Props.C13', 'Vise.Props.C13Log'], suites=['pg'],
     trusted=PG_TRUSTED, assumptions=["a handle that has been used with Start stays in explicit-transaction mode after Stop (Stop does not clear it; TestPostgresTxStartStop relies on that), so the single-operation clauses are stated for handles never put into that mode"],
 )
 
